@@ -95,6 +95,24 @@ def eval_call(I: Interp, node: ast.Call, fr: Frame):
         if n == "unchanged":  # no object that existed at entry has been written
             old_ep = st.old_stack[-1].get("__epoch__", st.epoch_entry) if st.old_stack else st.epoch_entry
             return I.as_bool_sv(st.epoch == old_ep)
+        if n == "member":  # member(space, x): x is an element of the gymnasium space (library model, see lib.py)
+            from .interp import PSpace
+            sp = I.ev(node.args[0], fr)
+            x = I.to_sv(I.ev(node.args[1], fr))
+            if not isinstance(sp, PSpace):
+                raise Refuse("member(): first argument is not a gymnasium space the engine could build")
+            return I.as_bool_sv(space_member(I, sp, x))
+        if n == "is_enum_value":  # is_enum_value(x, EnumClass): x is the .value of some member (members read from the real class)
+            x = I.to_sv(I.ev(node.args[0], fr))
+            cls = I.ev(node.args[1], fr)
+            if not isinstance(cls, PClass) or not cls.ci.is_enum:
+                raise Refuse("is_enum_value(): second argument is not an enum class of the repository")
+            alts = []
+            for _nm, val in cls.ci.enum_members().items():
+                if isinstance(val, bool) or not isinstance(val, (int, str)):
+                    raise Refuse(f"is_enum_value(): member value {val!r} of {cls.ci.name} is not an int/str literal")
+                alts.append(x.t == const(val).t)
+            return I.as_bool_sv(z3.Or(*alts))
         if n == "seq":  # abstract value of a list's content (uninterpreted function of elements array and length)
             a0 = node.args[0]
             if isinstance(a0, ast.Subscript) and isinstance(a0.slice, ast.Slice):
@@ -746,6 +764,24 @@ def apply_contract(I: Interp, con: Contract, finfo: FuncInfo, selfv, args, kwarg
     st.log.append(f"contract {finfo.key}")
     st.call_records.append({"callee": finfo.key, "line": line, "result": result, "heap_after": dict(st.heap)})
     return result
+
+
+def space_member(I: Interp, sp, x: SV):
+    st = I.st
+    if sp.kind == "discrete":
+        v = z3.If(smt.is_bool(x.t), z3.If(smt.bval(x.t), 1, 0), smt.ival(x.t))
+        return z3.And(z3.Or(smt.is_int(x.t), smt.is_bool(x.t)), v >= 0, v < smt.ival(sp.n.t))
+    if sp.kind == "dict":
+        r = smt.rid(x.t)
+        d = SV(x.t, T.DICT())
+        I.assume_dict_wf(d)
+        parts = [smt.is_ref(x.t), z3.Select(st.arr("cls"), r) == DICT_CID, z3.Select(st.arr("dsz"), r) == len(sp.items)]
+        for k, sub in sp.items.items():
+            kv = const(k)
+            parts.append(I.dict_has(d, kv))
+            parts.append(space_member(I, sub, I.dict_get(d, kv)))
+        return z3.And(*parts)
+    raise Refuse(f"member() of a {sp.kind} space")
 
 
 def emit_event(I: Interp, ev, sf: Frame):
